@@ -420,6 +420,53 @@ fn subsampled_configs(ctx: &Ctx, st: &mut Stats) -> Vec<Violation> {
     })
 }
 
+/// Fresh-thread histories: a decode + encode with a matrix *derived from primaries* (every derived matrix x every
+/// supported primaries set) right before the first use of a standard matrix on that thread. Tables indexed by H.273
+/// code points would let the primaries' code alias the standard matrix with the same number.
+fn after_derived_matrix_calls(ctx: &Ctx, st: &mut Stats) -> Vec<Violation> {
+    if ctx.light {
+        return Vec::new();
+    }
+    let mut jobs = Vec::new();
+    for m in STD_MC {
+        for d in super::c06::DERIVED_MC {
+            for p in crate::oracle::SUP_CP {
+                jobs.push((m, d, p));
+            }
+        }
+    }
+    let seed0 = ctx.seed;
+    par_sweep(ctx, st, jobs.len() as u64, |lo, hi, st| {
+        for j in lo..hi {
+            let (m, d, p) = jobs[j as usize];
+            let depth = [8u8, 10, 8, 12][(j % 4) as usize];
+            let c = cfg(m, TC::BT1886, CP::BT709, depth, j % 2 == 1, (0, 0));
+            let case = Case { cfg: c, u8_storage: j % 2 == 0 && depth == 8, by_value: j % 3 == 0, codes: Codes::Seeded { stratum: (j % 7) as u8, seed: mix64(seed0 ^ j ^ 0xDEC0), n: 96 }, layout: Some((2, [(0, 0); 3])) };
+            let r = std::thread::scope(|sc| {
+                sc.spawn(|| {
+                    super::c06::yuv_calls(d, p);
+                    let mut local = Stats::new();
+                    local.sample_budget = 0;
+                    check(&case, &mut local).map(|_| local.comparisons)
+                })
+                .join()
+            });
+            match r {
+                Ok(Ok(n)) => st.comparisons += n,
+                Ok(Err(mut v)) => {
+                    v.message = format!("{} [first use of this matrix on a fresh thread, right after a decode and an encode with matrix {:?} and primaries {:?}]", v.message, d, p);
+                    return Some(v);
+                }
+                Err(_) => return Some(Violation { signature: "panic".into(), message: "history thread panicked".into(), case: Value::Null }),
+            }
+            st.evaluations += 1;
+            st.nontrivial_by_construction += 1;
+            st.class("fresh_thread_histories_after_derived_matrix_calls", 1);
+        }
+        None
+    })
+}
+
 /// uniformly tinted frames of power-of-two sizes: both chroma planes constant at extreme / neutral values, luma
 /// random - whole-plane statistics (sums that wrap, "is this frame grey" shortcuts) are extreme exactly there
 fn tinted_frames(ctx: &Ctx, st: &mut Stats) -> Vec<Violation> {
@@ -464,6 +511,10 @@ pub fn run(ctx: &Ctx, st: &mut Stats) -> Vec<Violation> {
         return v;
     }
     v.extend(tinted_frames(ctx, st));
+    if !v.is_empty() {
+        return v;
+    }
+    v.extend(after_derived_matrix_calls(ctx, st));
     if !v.is_empty() {
         return v;
     }
